@@ -29,7 +29,7 @@ def run(fx, rep):
     ledger = P.load_ledger()
     bodies = scope(fx)
     edges = P.audit(fx, rep, 'L', bodies, ledger, 'exec')
-    rep.floor('L', 60, '(panic edges of the interpreter incl. ~45 guarded argument indexings)')
+    rep.floor('L', 45, '(panic edges of the interpreter incl. ~45 guarded argument indexings; fewer without chrono)')
     # ---- P1
     b = fx.body('<cel_interpreter::resolvers::AllArguments as cel_interpreter::resolvers::Resolver>::resolve')
     pv = F.Prov(b)
